@@ -96,7 +96,13 @@ fn body_recurse(
                 body_recurse(group.stream(), captured, lines, group_indent);
                 let multiline = lines.len() > n_lines;
                 if multiline {
-                    lines.last_mut().unwrap().truncate(indent);
+                    // dedent the line the closing delimiter goes on; a line that still holds tokens
+                    // (an unterminated trailing expression) is kept and the delimiter gets its own line
+                    if lines.last().unwrap().trim().is_empty() {
+                        lines.last_mut().unwrap().truncate(indent);
+                    } else {
+                        lines.push(" ".repeat(indent));
+                    }
                 }
                 lines
                     .last_mut()
